@@ -552,3 +552,6 @@ def shrink(l):
         yield " ".join(t[:8] + ["0"] + t[9:])
     if t[0] != "b":
         pass    # the instance is part of the finding's signature; keep it
+
+
+KNOWN_MUST_MATCH_MODEL = True   # inside a known finding's region the observation must still equal the model's (which reproduces the listed defect); see lib/vf/run.py
